@@ -1423,6 +1423,19 @@ pub fn generate(run_seed: u64, index: u64) -> Script {
                 }
             }
         }
+        // and sometimes append an instruction to a block instructions were removed from (never
+        // behind a Branch terminator): it must get an index no surviving instruction has
+        let mut appended = Vec::new();
+        if !removed.is_empty() && g.rng.chance(2, 3) {
+            for &(b, _) in &removed {
+                if matches!(blocks[b].last().map(|i| &i.op), Some(OpSpec::Branch(_))) || !g.rng.chance(2, 3) {
+                    continue;
+                }
+                let sc = *g.rng.pick(&SC[..8]);
+                let op = if g.rng.chance(1, 4) { OpSpec::Nop } else { OpSpec::Assign(sc.0.into(), sc.1, g.expr(sc.1, 2)) };
+                appended.push((b, InstrSpec { op, address: Some(0x17_0000 + 4 * appended.len() as u64) }));
+            }
+        }
         funcs.push(FuncSpec {
             address: 0x10_0000 + 0x1000 * fi as u64 + 0x8_0000,
             blocks,
@@ -1430,6 +1443,7 @@ pub fn generate(run_seed: u64, index: u64) -> Script {
             entry: 0,
             removed,
             moved,
+            appended,
         });
     }
 
